@@ -152,9 +152,29 @@ fn gen_job(job: &Value) -> Value {
             Ok(x) => x,
             Err(e) => return json!({"status":"badflags","err":e}),
         };
+        let fix = job.get("fixpoint").and_then(|v| v.as_bool()).unwrap_or(false);
+        if fix {
+            bindgen::verif::fixpoint_begin();
+        }
         let res = b.generate();
+        let fix_report = if fix {
+            let r = bindgen::verif::fixpoint_end();
+            let runs: Vec<Value> = r
+                .runs
+                .iter()
+                .map(|a| json!({"label": a.label, "domain": a.domain, "constrain_calls": a.constrain_calls,
+                                "hook_constrain_calls": a.hook_constrain_calls, "facts": a.facts,
+                                "unstable": a.unstable.iter().collect::<Vec<_>>(),
+                                "not_least": a.not_least.iter().collect::<Vec<_>>(),
+                                "reference_diverged": a.reference_diverged}))
+                .collect();
+            Some(json!({"runs": runs, "events": r.events, "consultations": r.consultations}))
+        } else {
+            None
+        };
+        let res = res.map(|b| (b, fix_report.clone())).map_err(|e| (e, fix_report));
         match res {
-            Ok(bindings) => {
+            Ok((bindings, fix_report)) => {
                 let mut buf = vec![];
                 if let Err(e) = bindings.write(&mut buf) {
                     return json!({"status":"write_err","err":e.to_string()});
@@ -171,9 +191,12 @@ fn gen_job(job: &Value) -> Value {
                     out["text"] = json!(text);
                 }
                 out["cb_log"] = json!(*log.lock().unwrap());
+                if let Some(f) = fix_report {
+                    out["fixpoint"] = f;
+                }
                 out
             }
-            Err(e) => json!({"status":"err","err_kind":err_kind(&e),"err":e.to_string(),
+            Err((e, _)) => json!({"status":"err","err_kind":err_kind(&e),"err":e.to_string(),
                              "cb_log": *log.lock().unwrap()}),
         }
     }));
